@@ -166,7 +166,7 @@ class Reader:
         if fn.get('ctor'):
             states = [st]
             for i in fn.get('inits', []):
-                if i.get('base') and i.get('e') is not None:
+                if (i.get('base') or i.get('delegating')) and i.get('e') is not None:
                     # base-class sub-object built by a repo constructor: same `this`
                     e0 = strip_casts(i['e'])
                     sub = self.facts.functions.get(e0.get('fk')) if e0.get('k') == 'Construct' and e0.get('inrepo') and e0.get('fk') else None
@@ -437,6 +437,15 @@ class Reader:
                         v = v.get(p) if isinstance(v, dict) else None
                     if v is not None:
                         return [(v, st)]
+                elif isinstance(bound, tuple) and len(parts) == 1 and root is not None:
+                    # aggregate built from a braced list: members in declaration order of the record
+                    tn = (root.get('t') or {}).get('s', '').replace('const ', '').replace('&', '').strip()
+                    rec = self.facts.records.get(tn)
+                    names_ = [f_['name'] for f_ in rec['fields']] if rec else []
+                    if parts[0] in names_ and names_.index(parts[0]) < len(bound):
+                        return [(bound[names_.index(parts[0])], st)]
+                    if parts[0] in names_:
+                        return [(sp.Integer(0), st)]      # value-initialised tail of a shorter braced list
                 key = ('struct', nm)
                 if key not in st.fields:
                     st.fields[key] = self.symbol(nm, e['t'])
